@@ -92,6 +92,13 @@ func (nc *vfNodeConn) SendSplit(b []byte, k int, pause time.Duration) {
 
 // Reply sends a response frame for the request's stream.
 func (nc *vfNodeConn) Reply(req *vfFrame, op byte, body []byte) {
+	if nc.Node != nil && nc.Node.Compress != nil {
+		// a node that compresses its answers on connections that negotiated compression
+		if cb, ok := nc.Node.Compress(nc, op, body); ok {
+			nc.Send(vfEncodeFrame(req.Version, 0x01, req.Stream, op, cb))
+			return
+		}
+	}
 	nc.Send(vfEncodeFrame(req.Version, 0, req.Stream, op, body))
 }
 
@@ -142,7 +149,9 @@ type vfNode struct {
 	BufferLimit int
 	// Decompress, when set, is applied to request bodies that carry the compression flag.
 	Decompress func(name string, body []byte) ([]byte, error)
-	Tracer     *vfTracer
+	// Compress, when set, may turn the body of an answer into its compressed form (ok = send it flagged).
+	Compress func(nc *vfNodeConn, op byte, body []byte) (out []byte, ok bool)
+	Tracer   *vfTracer
 }
 
 func vfNewNode(cluster *vfCluster, desc vfHostDesc) *vfNode {
